@@ -58,6 +58,13 @@ theorem pulls_of_hasNeed {S : Stage ι ο σ} {f : Nat → Nat} (h : HasNeed S f
     rw [List.getElem?_eq_none hle] at h1; cases h1
   rw [pulls_eq, List.getElem?_take_of_lt hk, runReads, List.getElem?_append_left hlt, h1]
 
+theorem take_zip : ∀ (xs : List α) (ys : List ι) (j : Nat),
+    (xs.zip ys).take j = (xs.take j).zip (ys.take j)
+  | [], _, j => by simp
+  | _ :: _, [], j => by simp
+  | x :: xs, y :: ys, 0 => by simp
+  | x :: xs, y :: ys, j + 1 => by simp [take_zip xs ys j]
+
 /-! ### possibly endless sources -/
 
 theorem Seq.take_length_le (s : Seq α) : ∀ j, (s.take j).length ≤ j
